@@ -11,7 +11,8 @@ import Mathlib.Tactic.Linarith
 # C19 — survey reductions (theorems about the regenerated `GenR.Survey` / `GenR.Convert`)
 
 1. `join_radiate`, `radiate_join`, `bearing_range`, `bearing_north`, `bearing_east`, `bearing_south`,
-   `bearing_west`, `bearing_west_half`
+   `bearing_west`, `bearing_west_half`, `bearing_east_half`, `back_bearing_east`, `back_bearing_west`,
+   `joins_reverse`
 2. `rotation_scale`
 3. `va_conv_upper`, `va_conv_lower`, `va_pythagoras`, `va_heights`, `va_rejects`, `va_defined`
 4. `fvc_closed_form`, `fvc_proportional_closed`, `fvc_ciddor_form`, `fvc_proportional_co2`,
@@ -156,6 +157,67 @@ theorem bearing_west_half (x y : ℝ) (hx : x < 0) :
   simp only [atan2_def]
   simp only [if_pos hneg]
   constructor <;> linarith
+
+theorem bearing_east_half (x y : ℝ) (hx : 0 < x) :
+    0 < (rect2polar x y).2 ∧ (rect2polar x y).2 < 180 := by
+  have hnn : 0 ≤ Complex.arg (⟨y, x⟩ : ℂ) := Complex.arg_nonneg_iff.mpr hx.le
+  have hne0 : Complex.arg (⟨y, x⟩ : ℂ) ≠ 0 := by
+    intro h; have := (Complex.arg_eq_zero_iff.mp h).2; simp at this; linarith
+  have hnepi : Complex.arg (⟨y, x⟩ : ℂ) ≠ Real.pi := by
+    intro h; have := (Complex.arg_eq_pi_iff.mp h).2; simp at this; linarith
+  have hpos : 0 < Complex.arg (⟨y, x⟩ : ℂ) := lt_of_le_of_ne hnn (Ne.symm hne0)
+  have hlt : Complex.arg (⟨y, x⟩ : ℂ) < Real.pi := lt_of_le_of_ne (Complex.arg_le_pi _) hnepi
+  have d1 := degrees_lt _ hpos
+  have d2 := degrees_lt _ hlt
+  rw [degrees_zero] at d1; rw [degrees_pi] at d2
+  rw [rect2polar_eq]
+  simp only [atan2_def]
+  simp only [if_neg (not_lt.mpr hnn)]
+  exact ⟨d1, d2⟩
+
+/-- the back bearing: swapping the two points of a join turns the bearing by exactly 180. -/
+theorem back_bearing_east (x y : ℝ) (hx : 0 < x) :
+    (rect2polar (-x) (-y)).2 = (rect2polar x y).2 + 180 := by
+  have hz : (⟨-y, -x⟩ : ℂ) = -(⟨y, x⟩ : ℂ) := by apply Complex.ext <;> simp
+  have ha : Complex.arg (⟨-y, -x⟩ : ℂ) = Complex.arg (⟨y, x⟩ : ℂ) - Real.pi := by
+    rw [hz]; exact Complex.arg_neg_eq_arg_sub_pi_of_im_pos hx
+  have hnn : 0 ≤ Complex.arg (⟨y, x⟩ : ℂ) := Complex.arg_nonneg_iff.mpr hx.le
+  have hneg : Complex.arg (⟨-y, -x⟩ : ℂ) < 0 := Complex.arg_neg_iff.mpr (by simpa using hx)
+  rw [rect2polar_eq, rect2polar_eq]
+  simp only [atan2_def]
+  rw [if_pos hneg, if_neg (not_lt.mpr hnn), ha]
+  simp only [degrees_def]
+  field_simp
+  ring
+
+theorem back_bearing_west (x y : ℝ) (hx : x < 0) :
+    (rect2polar (-x) (-y)).2 = (rect2polar x y).2 - 180 := by
+  have hz : (⟨-y, -x⟩ : ℂ) = -(⟨y, x⟩ : ℂ) := by apply Complex.ext <;> simp
+  have ha : Complex.arg (⟨-y, -x⟩ : ℂ) = Complex.arg (⟨y, x⟩ : ℂ) + Real.pi := by
+    rw [hz]; exact Complex.arg_neg_eq_arg_add_pi_of_im_neg hx
+  have hneg : Complex.arg (⟨y, x⟩ : ℂ) < 0 := Complex.arg_neg_iff.mpr hx
+  have hnn : 0 ≤ Complex.arg (⟨-y, -x⟩ : ℂ) := Complex.arg_nonneg_iff.mpr (by simp; linarith)
+  rw [rect2polar_eq, rect2polar_eq]
+  simp only [atan2_def]
+  rw [if_pos hneg, if_neg (not_lt.mpr hnn), ha]
+  simp only [degrees_def]
+  field_simp
+  ring
+
+/-- C19.1 (both directions of a line): joining the two points the other way round gives the
+same distance and the back bearing — the forward bearing turned by exactly 180 (here for a line
+running east; `back_bearing_west` is the other half, and on the meridian `bearing_north/south`). -/
+theorem joins_reverse (e1 n1 e2 n2 : ℝ) (h : e1 < e2) :
+    (joins e2 n2 e1 n1).1 = (joins e1 n1 e2 n2).1 ∧
+    (joins e2 n2 e1 n1).2 = (joins e1 n1 e2 n2).2 + 180 := by
+  have he : e1 - e2 = -(e2 - e1) := by ring
+  have hn : n1 - n2 = -(n2 - n1) := by ring
+  unfold joins
+  rw [he, hn]
+  refine ⟨?_, back_bearing_east _ _ (by linarith)⟩
+  rw [rect2polar_eq, rect2polar_eq]
+  simp only [pown_def, sqrt_def]
+  congr 1; ring
 
 theorem rotation_scale (e n b d ρ k : ℝ) :
     radiations e n b d ρ k =
@@ -591,6 +653,10 @@ end GeodeVerif.C19
 #print axioms GeodeVerif.C19.bearing_south
 #print axioms GeodeVerif.C19.bearing_west
 #print axioms GeodeVerif.C19.bearing_west_half
+#print axioms GeodeVerif.C19.bearing_east_half
+#print axioms GeodeVerif.C19.back_bearing_east
+#print axioms GeodeVerif.C19.back_bearing_west
+#print axioms GeodeVerif.C19.joins_reverse
 #print axioms GeodeVerif.C19.rotation_scale
 #print axioms GeodeVerif.C19.va_pythagoras
 #print axioms GeodeVerif.C19.va_heights
